@@ -1003,6 +1003,10 @@ def _array_decoder(repo: Repo, arr: ClassInfo, sb: ast.FunctionDef) -> Tuple[str
     item = packed.resolve_names(appends[0].args[0], ldefs)
     if isinstance(item, ast.IfExp) and all(isinstance(b_, ast.Call) and norm(b_.func) == "self.python_type" and len(b_.args) == 1 for b_ in (item.body, item.orelse)):
         item = item.body          # python_type(fields[0]) if len(fields) == 1 else python_type(fields): converted on both branches
+    if isinstance(item, ast.Call) and norm(item.func) != "self.python_type" and (
+            (isinstance(item.func, ast.Attribute) and norm(item.func.value) in ("self", "cls", "type(self)")) or isinstance(item.func, (ast.Name, ast.Call))) \
+            and norm(item.func) not in ("int", "float", "tuple", "list", "bytes", "bool", "str"):
+        return "?", f"decoded elements go through {norm(item.func)}, which is not read through"
     if not (isinstance(item, ast.Call) and norm(item.func) == "self.python_type" and len(item.args) == 1):
         return "bad", f"decoded elements are stored as {norm(item)[:60]} without the python_type conversion"
     return "ok", ""
@@ -1033,6 +1037,11 @@ def struct_field_orders(repo: Repo, k: ClassInfo) -> Tuple[Optional[List[str]], 
                     (len(n.args) == 1 and isinstance(n.args[0], ast.Name) and isinstance(n.func, (ast.Name, ast.Attribute)))):
                 g_ = n.args[0] if norm(n.func) == "map" else n.func
                 owner_k = ev[0]
+                if isinstance(g_, ast.Name):
+                    from ..packed import single_defs as _sd_ev
+                    _loc = _sd_ev(evn).get(g_.id)          # `record = attrgetter(...)` bound once in the getter itself
+                    if _loc is not None:
+                        g_ = _loc
                 if isinstance(g_, (ast.Name, ast.Attribute)):
                     d_ = None
                     for k_try in [ev[0]] + [x for x in [getattr(ev[0], "outer", None)] if x is not None]:
